@@ -272,6 +272,26 @@ def judge(caps, sizes, rows, doc, rd, model_doc, v_out, v_rd):
     return viol, dis
 
 
+def judge_composition(caps, sizes, rd, rt):
+    """writer model o reader model (request 1705): must satisfy the property on its own, and must equal what the real
+    reader returned for the real writer's output (texts exactly, starts within 2^-10 us)"""
+    inp = [{"lines": lines, "start": str(s), "end": str(e)} for lines, s, e in caps]
+    status, obs, ok = rt
+    if status != 0 or ok != 1:
+        return {"stream": "B-composition", "input": inp, "model": [status, obs, ok],
+                "what": "the writer model composed with the SCC reader model does not re-read to the same words "
+                        "(status %d: 0 read, 1 writer error, 2 not a document, 3 reader refused)" % status}
+    if isinstance(rd, Ok) and not near_threshold(caps, sizes):
+        real = rd.v
+        same = len(real) == len(obs) and all(
+            r[1] == o[1] and abs(r[0] - Fraction(o[0][0], o[0][1])) <= Fraction(1, 1024) for r, o in zip(real, obs))
+        if not same:
+            return {"stream": "B-composition", "input": inp, "impl": [[str(a), b] for a, b in real],
+                    "model": [[str(Fraction(o[0][0], o[0][1])), o[1]] for o in obs],
+                    "what": "reader model o writer model differs from SCCReader o SCCWriter"}
+    return None
+
+
 def evaluate(cases):
     """cases: list of caps. Returns list of (caps, sizes, rows, viol, dis, near)"""
     flat = [(1704, "\n".join(lines)) for caps in cases for lines, s, e in caps]
@@ -290,11 +310,14 @@ def evaluate(cases):
         reqs.append((1701, wc))
         reqs.append((1702, [wc, doc.v if isinstance(doc, Ok) else ""]))
         reqs.append((1703, [wc, rd.v if isinstance(rd, Ok) else []]))
+        reqs.append((1705, wc))
     resp = oracle_batch(reqs)
     for i, (caps, sizes, rows, doc, rd) in enumerate(obs):
-        m, v_out, v_rd = resp[3 * i:3 * i + 3]
+        m, v_out, v_rd, rt = resp[4 * i:4 * i + 4]
         model_doc = Ok(m[1]) if m[0] == 0 else Err(m[1])
         viol, dis = judge(caps, sizes, rows, doc, rd, model_doc, v_out, v_rd)
+        if viol is None and dis is None and all(r <= 15 for r in rows):
+            dis = judge_composition(caps, sizes, rd, rt)
         out.append((caps, sizes, rows, viol, dis, near_threshold(caps, sizes)))
     return out
 
@@ -339,7 +362,7 @@ def build_cases(ctx):
 
 def run(ctx):
     res = {"evaluations": 0, "nontrivial": set(), "violations": [], "disagreements": [], "distribution": {},
-           "streams": 3, "notes": []}
+           "streams": 4, "notes": []}
     run_wrap(ctx, res)
     cases = build_cases(ctx)
     dist = res["distribution"]
@@ -387,7 +410,10 @@ def run(ctx):
         "correspondence_only": ["textwrap.wrap itself (stream A validates the Coq model of it)",
                                 "binary64 arithmetic of PASS 2 and _format_timestamp (exact model; exact-boundary "
                                 "inputs counted as near_threshold)",
-                                "re-reading through the real SCCReader: one caption per cue, same words, start time",
+                                "re-reading through the real SCCReader: one caption per cue, same words, start time; the same "
+                                "statement for the writer model composed with builder sccr's full reader model is evaluated "
+                                "on every case (request 1705) and compared with the real pair; complete-table theorems for "
+                                "every basic character through both models",
                                 "document assembly of write() (header, line layout)"]}
     res["trusted_extra"] = ["Python's textwrap (modelled by coq/model/SccWrap.v for break_on_hyphens=False, no TABs; "
                             "validated by stream A on every run)",
